@@ -39,6 +39,10 @@
 (*   Retag         image.go:imageCopyOpt inside one repository (only the   *)
 (*                 top manifest is pushed under the new tag)               *)
 (*   BlobDel       scheme/ocidir/blob.go:BlobDelete (os.Remove)            *)
+(*   BlobPutBad    blob.go:BlobPut with a descriptor whose digest or size  *)
+(*                 does not match the bytes (error before the rename; the  *)
+(*                 temp file stays); man_bad: manifestPut to a digest      *)
+(*                 reference that is not the manifest's digest             *)
 (*   PutParts      the driver's piecewise push (harness/cmd/c07drv)        *)
 (* Readers: Readable = ocidir.go:valid + readIndex; ManifestHead by tag /  *)
 (* by digest = manifest.go:ManifestHead; BlobHead = blob.go:BlobHead.      *)
@@ -91,7 +95,7 @@ Children(o) == CASE o = "M1" -> {"C1", "L1", "L2"} [] o = "M2" -> {"C2", "L1", "
                  [] o = "IX" -> {"M1", "M2"} [] o = "A1" -> {"CE", "LA"} [] o = "A2" -> {"CE", "LB"}
                  [] o \in RLs -> RLSet(o) [] OTHER -> {}
 Subject(o) == IF o \in Arts THEN "M1" ELSE ""
-Chunks(o) == CASE o = "L1" -> 2 [] o = "L4" -> 3 [] OTHER -> 1     \* write calls (32 KiB copy buffer)
+Chunks(o) == CASE o = "L1" -> 2 [] o = "L4" -> 3 [] o = "L0" -> 0 [] o = "LK1" -> 2 [] OTHER -> 1   \* write calls (32 KiB copy buffer)
 Fb(s) == "fb-" \o s                                               \* fall-back tag of subject s
 SrcReferrers(o) == IF o = "M1" THEN {"A1"} ELSE {}                \* referrers in the source layout
 Closure1(S) == S \cup UNION {Children(o) : o \in S}
@@ -135,7 +139,7 @@ DirChain == <<"root", "blobs", "alg">>
 DirIdx(d) == CHOOSE j \in 1..3 : DirChain[j] = d
 IsBlob(o) == o \notin Manifests
 
-Macros == {"InitIndex", "InitIndexL", "MkdirAll", "MarkerEnsure", "BlobPut", "ManPut", "UpdIndex", "WriteIndex", "RefPut",
+Macros == {"InitIndex", "InitIndexL", "MkdirAll", "BlobPutBad", "MarkerEnsure", "BlobPut", "ManPut", "UpdIndex", "WriteIndex", "RefPut",
            "TagDel", "ManDel", "RefDel", "DelEntries", "Close", "GcScan", "CopyM", "Retag", "BlobDel", "CopyB2", "ImpB",
            "ImpM", "Import", "PutParts", "PutChild"}
 
@@ -150,6 +154,9 @@ OpProg(sc) ==
                 [] sc.kind = "put_child" -> <<InsO("PutParts", sc.o)>> \o ManPutL("", sc.o, TRUE)
                 [] sc.kind = "tag_delete" -> <<Ins("Lock"), InsT("TagDel", sc.t), Ins("Unlock")>>
                 [] sc.kind = "man_delete" -> <<Ins("Lock"), InsO("ManDel", sc.o), Ins("Unlock")>>
+                [] sc.kind = "blob_bad" -> <<InsO("BlobPutBad", sc.o)>>     \* sc.o = the bytes sent; the descriptor lies
+                [] sc.kind = "man_bad" -> <<Ins("Lock"), Ins("InitIndex"), Ins("Fail")>>   \* manifestPut: initIndex, then the
+                                                                                          \* reference digest is compared
                 [] sc.kind = "blob_delete" -> <<InsO("BlobDel", sc.o)>>              \* blob.go:BlobDelete = os.Remove
                 [] sc.kind = "retag" ->     \* ImageCopy inside one repository: nothing but the manifest is pushed
                      <<Ins("GcLock"), [Ins("Retag") EXCEPT !.t = sc.t, !.o = sc.o], Ins("GcUnlock")>>
@@ -177,6 +184,9 @@ Exp(h) ==
          <<Ins("InitIndexL"), InsO("MkdirAll", "alg"),
            [Ins("CreatTmp") EXCEPT !.t = "blob", !.o = h.o]>> \o Repeat(Ins("WriteTmp"), Chunks(h.o))
          \o <<InsO("RenameCas", h.o)>>
+    [] h.i = "BlobPutBad" ->     \* BlobPut: digest and size are compared after the last write, BEFORE the rename
+         <<Ins("InitIndexL"), InsO("MkdirAll", "alg"),
+           [Ins("CreatTmp") EXCEPT !.t = "blob", !.o = h.o]>> \o Repeat(Ins("WriteTmp"), Chunks(h.o)) \o <<Ins("Fail")>>
     [] h.i = "ManPut" ->
          <<Ins("InitIndex"), InsO("MkdirAll", "alg"), [Ins("CreatTmp") EXCEPT !.t = "man", !.o = h.o], Ins("WriteTmp"),
            InsO("RenameCas", h.o), [Ins("UpdIndex") EXCEPT !.t = h.t, !.o = h.o, !.c = h.c]>>
@@ -483,7 +493,7 @@ P == INSTANCE LayoutFSProp WITH pre <- PreIdx.tags, tgt <- Targets, op <- OpRec,
 CrashStateOK == Crashable => P!Failing(P!StateChecks(Obs, EstM, EstI) \o P!FreshChecks(Obs, EstM, EstI)) = <<>>
 \* O5: the uninterrupted operation returned success => the intended state is there, completely
 ReturnOK == (ctl.phase = "done" /\ ctl.crashes = 0) =>
-              /\ ctl.res = "ok"
+              /\ ctl.res = (IF ctl.scen.kind \in {"blob_bad", "man_bad"} THEN "err" ELSE "ok")
               /\ P!Failing(P!StateChecks(Obs, TRUE, EstI) \o P!FreshChecks(Obs, TRUE, EstI) \o P!GoalChecks(Obs, "O5")) = <<>>
 \* O6: after crash(es) and a completed repetition the intended state is there (the repetition itself
 \* may report an error, e.g. "not found" when the interrupted delete had already happened)
